@@ -145,7 +145,7 @@ class Method(object):
         if is_self_attr(n, 'hold_time'):
             return [], 'negb (w_hold w =? 0)'
         if is_self_attr(n, 'delay_open'):
-            return [], 'cf_delay_open_on (w_cfg w)'
+            return [], 'false'      # FSM.__init__ sets delay_open = False (checked by check_init)
         if is_self_attr(n, 'allow_automatic_start'):
             return [], 'w_auto w'
         if is_self_attr(n, 'bgp_peering'):
